@@ -102,6 +102,11 @@ func flight3Parse(
 					state.ExtendedMasterSecret = true
 				}
 			case *extension.ALPNSelection:
+				// The server must select one of the protocols this side offered.
+				if !slices.Contains(cfg.SupportedProtocols, ext.Protocol) {
+					return 0, &alert.Alert{Level: alert.Fatal, Description: alert.IllegalParameter},
+						dtlserrors.ErrALPNNoAppProto
+				}
 				state.NegotiatedProtocol = ext.Protocol
 			}
 		}
@@ -274,6 +279,12 @@ func handleServerKeyExchange(
 	if keyExchangeMessage.NamedCurve == elliptic.X25519MLKEM768 {
 		return &alert.Alert{Level: alert.Fatal, Description: alert.IllegalParameter},
 			dtlserrors.ErrUnsupportedEllipticCurveVersion
+	}
+	// An ECDHE key exchange must run on a group this side offered.
+	if state.CipherSuite.KeyExchangeAlgorithm().Has(ciphersuite.KeyExchangeAlgorithmEcdhe) &&
+		!slices.Contains(supportedEllipticCurves(cfg.EllipticCurves), keyExchangeMessage.NamedCurve) {
+		return &alert.Alert{Level: alert.Fatal, Description: alert.IllegalParameter},
+			dtlserrors.ErrNoSupportedEllipticCurves
 	}
 
 	if cfg.LocalPSKCallback != nil { //nolint:nestif
